@@ -73,9 +73,9 @@ MANIFEST = dict(
           "gjk_distance_original: weak duality (omega is a lower bound for every search direction), accuracy of the "
           "duality-gap exit, the set-level inflation identity, loop-level accuracy under the projection contract, "
           "fall-back of the acceleration, iteration-cap exit, feasibility and no-improvement optimality of the original GJK, "
-          "plus as-is counterexamples for the double-counted inflation and the extrapolating 2-point projection; the models "
+          "the repaired inflation dispatch (inflation only together with the core supports; counterexample for the code before the repair), plus as-is counterexamples for the extrapolating 2-point and 4-point projections; the models "
           "are compared step by step with recorded runs of the implementation; an independent certificate oracle searches "
-          "all ordered collider-type pairs x both acceleration flags for failing inputs; five recorded defects are replayed."),
+          "all ordered collider-type pairs x both acceleration flags for failing inputs; four recorded defects are replayed, the witnesses of the repaired inflation defect (commit 78b7577) run as regression scenes."),
     note=("trusted: Lean kernel + Mathlib (axioms propext/Classical.choice/Quot.sound), exact-real semantics, the "
           "correspondence harness (sampling), the oracle; partial: projection soundness for 3/4-point simplices, the momentum "
           "iteration, the Johnson sub-algorithm (parameter), float effects; known findings are attached only to their "
@@ -745,7 +745,6 @@ def reference_points(sa, sb):
 
 # ============================================================================ oracle
 FINDINGS = {
-    "A": "F-nesterov-inflation-generic",
     "B": "F-nesterov-cap-zero",
     "C": "F-nesterov-accel-projection",
     "D": "F-orig-degenerate-tetra-zero",
@@ -755,12 +754,15 @@ MAX_ITER = 128
 
 
 def inflation_of(sa, sb):
-    return sum(float(s["radius"]) for s in (sa, sb) if s["type"] in INFLATED)
-
-
-def mixed_inflated_generic(sa, sb):
-    ta, tb = sa["type"], sb["type"]
-    return (ta in INFLATED and tb in GENERIC) or (tb in INFLATED and ta in GENERIC)
+    """what the code subtracts: radii of sphere / capsule colliders, since commit 78b7577 only when both
+    colliders have a specialised support (the primitives variant accepts nothing else)"""
+    if not (sa["type"] in SPECIAL and sb["type"] in SPECIAL):
+        return 0.0
+    infl = 0.0
+    for s in (sa, sb):            # same order of additions as the code: 0.0 + r0 + r1
+        if s["type"] in INFLATED:
+            infl += float(s["radius"])
+    return infl
 
 
 def classify(alg, sa, sb, r, lo, up, L):
@@ -786,12 +788,6 @@ def classify(alg, sa, sb, r, lo, up, L):
     # B: acceleration on, iteration cap reached, the initial distance 0.0 is returned
     if alg in ("nest1", "prim1") and r["it"] >= MAX_ITER and r["raw"] == 0.0 and not r["inside"] and lo > tol:
         return FINDINGS["B"], True
-    # A: sphere / capsule against a collider with generic support: result = truth - inflation
-    if alg in ("nest0", "nest1") and mixed_inflated_generic(sa, sb):
-        infl = inflation_of(sa, sb)
-        want_lo, want_up = max(0.0, lo - infl), max(0.0, up - infl)
-        if want_lo - tol <= r["d"] <= want_up + tol:
-            return FINDINGS["A"], False
     # C: acceleration on and a projection returned a point outside the simplex
     if alg in ("nest1", "prim1") and n.get("extrap", 0) > 0 and r["it"] < MAX_ITER:
         return FINDINGS["C"], True
@@ -984,10 +980,7 @@ def nest_defaults(alg):
 
 def trace_tokens(alg, sa, sb, trace, enc=enc_v):
     maxit, ub, tol = nest_defaults(alg)
-    infl = 0.0
-    for s in (sa, sb):            # same order of additions as the code: 0.0 + r0 + r1
-        if s["type"] in INFLATED:
-            infl += float(s["radius"])
+    infl = inflation_of(sa, sb)
     normalize = alg.startswith("nest") and sa["type"] == "mesh" and sb["type"] == "mesh"
     t = [str(maxit)] + enc([ub + infl, tol, infl]) + ["1" if normalize else "0", "1" if alg.endswith("1") else "0",
                                                       str(len(trace))]
@@ -1480,6 +1473,24 @@ def scenes_for_corr(ctx, n_per_pair, types=ALLTYPES):
     return out
 
 
+def _I4(t):
+    return [[1.0, 0.0, 0.0, t[0]], [0.0, 1.0, 0.0, t[1]], [0.0, 0.0, 1.0, t[2]], [0.0, 0.0, 0.0, 1.0]]
+
+
+def regression_scenes():
+    """witnesses of repaired defects: run first on every check, without any finding id.
+    F-nesterov-inflation-generic (repaired in /repo by commit 78b7577): sphere / capsule against a cone,
+    both argument orders; before the repair gjk_nesterov_accelerated returned 2.0 for the true distance 3.0"""
+    sphere = {"type": "sphere", "center": [0.0, 0.0, 0.0], "radius": 1.0}
+    cone = {"type": "cone", "pose": _I4([5.0, 0.0, 0.0]), "radius": 1.0, "height": 2.0}
+    capsule = {"type": "capsule", "pose": _I4([0.0, 0.0, 0.0]), "radius": 1.0, "height": 2.0}
+    near = {"type": "cone", "pose": _I4([2.5, 0.0, 0.0]), "radius": 1.0, "height": 2.0}   # closer than the radius
+    out = []
+    for a, b in ((sphere, cone), (cone, sphere), (capsule, cone), (cone, capsule), (sphere, near), (near, capsule)):
+        out.append({"a": _copy(a), "b": _copy(b), "placement": "regression", "stream": "R"})
+    return out
+
+
 def load_witnesses():
     out = []
     for k in core.load_known():
@@ -1498,6 +1509,7 @@ def correspondence(ctx):
     corr_proj(ctx)
     corr_order(ctx)
     scenes = [dict(w["scene"], stream="W", placement="witness") for _, w in load_witnesses()]
+    scenes += regression_scenes()
     scenes += scenes_for_corr(ctx, ctx.budget(2, 20))
     scenes += [closed_form_scene(ctx.rng, ctx.rng.choice(["L", "G"])) for _ in range(ctx.budget(60, 600))]
     corr_trace(ctx, scenes)
@@ -1540,6 +1552,8 @@ def search(ctx):
     # 1. recorded witnesses first
     for fid, w in load_witnesses():
         run(dict(w["scene"], placement="witness", stream="W"), "W")
+    for sc in regression_scenes():
+        run(sc, "R")
     # 2. constructed closed forms
     for _ in range(ctx.budget(600, 6000) * boost):
         st = ctx.rng.choice(["L", "G"])
